@@ -9,7 +9,8 @@ the real ledger / evaluator (the pool account BEFORE the rewards withdrawal come
 result, the producer's expired / absent lists, is an INPUT of the model and comes back in `hdr`).  `hdr` runs the model's
 `generateBlock` over ALL groups tried so far + `finishBlock` and prints the derived header fields.  `validate` runs the model's
 `validate` on that block and prints the state delta in the harness' terms.  `mutate` runs `validate` on the mutated block for
-the modelled fields (`-` for the others).  `commit` is answered `-`. -/
+the modelled fields (`-` for the others).  `commit` is answered `-`.  A case whose `reset` line carries `apps=1` contains application calls, which are outside
+Model.LedgerCore: all its lines are answered `-` (implementation-only monitors apply). -/
 namespace AlgoVerif.Driver.C20
 open AlgoVerif.Drv AlgoVerif.Model.LedgerCore AlgoVerif.Model.BlockEval AlgoVerif.Driver.Lcore
 
@@ -26,6 +27,7 @@ structure St where
   elig : Bool := false
   part : List Nat := []
   blk : Option B0 := none
+  skip : Bool := false                   -- a case with application calls (outside the model): every line is answered `-`
 
 def gerrTok : GErr → String := gerrStr
 
@@ -106,7 +108,8 @@ def mutateBlk (b : B0) (what : String) (arg : Nat) : Option B0 :=
 
 def step (st : St) (line : String) : St × String :=
   let toks := fields line
-  if line.startsWith "reset" then ({}, "ok")
+  if line.startsWith "reset" then ({ skip := toks.contains "apps=1" }, "ok")
+  else if st.skip then (st, "-")
   else if line.startsWith "block " then
     match mkEnv toks.tail with
     | none => ({}, "bad-op")
